@@ -358,8 +358,8 @@ fn completed_prefix_ok(st: &slippi::de::ParseState, g: &Game, upto: usize) -> Re
             if a.as_slice()[i] != b.as_slice()[i] || a.as_slice()[i + 1] != b.as_slice()[i + 1] { return Err(format!("item offsets of completed frame {} differ", i)); }
             for j in a.as_slice()[i] as usize..a.as_slice()[i + 1] as usize { if dump::mu_item_row(ma, j) != dump::item_row(fb, j) { return Err(format!("item row {} differs", j)); } }
         }
-        // the row view of the in-progress representation (C13)
-        let t = st.frame(i); if t.id != fr.id.values()[i] { return Err(format!("in-progress frame({}).id differs", i)); }
+        // the row view of the in-progress representation (C13): the same values as the final columns at that index
+        if i + 3 >= upto || i == 0 { let t = st.frame(i); if let Err(e) = compare_view(&t, fr, i) { return Err(format!("row view of the in-progress representation: {}", e)); } }
     }
     Ok(())
 }
@@ -387,7 +387,9 @@ fn inc(rng: &mut Rng, ctx: &mut Ctx) {
                 trace.push(format!("{}:{}", len, st.bytes_read()));
                 if st.bytes_read() != src.pos - 15 { fails.push(("C12".into(), format!("bytes_read {} != raw bytes consumed {}", st.bytes_read(), src.pos - 15))); }
                 if len < last_len { fails.push(("C12".into(), "frame count decreased".into())); } last_len = len;
-                if let Err(e) = completed_prefix_ok(&st, g, len.saturating_sub(1)) { if fails.len() < 3 { fails.push(("C12".into(), format!("after {} events: {}", trace.len() - 1, e))); fails.push(("C13".into(), format!("in-progress representation: {}", e))); } }
+                // frames known to be complete: all but the newest, and the newest too once its Frame End has been seen
+                let complete = if code == 0x3C { len } else { len.saturating_sub(1) };
+                if let Err(e) = completed_prefix_ok(&st, g, complete) { if fails.len() < 3 { fails.push(("C12".into(), format!("after {} events: {}", trace.len() - 1, e))); fails.push(("C13".into(), format!("in-progress representation: {}", e))); } }
                 if code == 0x39 { break; }
             }
             // what `read` does after the loop
